@@ -1,5 +1,6 @@
 import itertools
 from ...config import Configuration, ConfigParser
+from ...config._config_parser import _TableFormSection
 
 import sys
 
@@ -59,6 +60,10 @@ def _list_items(cp):
     eam_dens_items = _list_eam_dens(cp)
     items.extend(eam_dens_items)
 
+  # [Table-Form:NAME] sections are neither in parsed_sections (their names vary) nor orphans
+  table_form_sections = [s for s in cp.raw_config_parser.sections() if _TableFormSection.is_relevant_section(s)]
+  items.extend(_parse_raw(cp, table_form_sections))
+
   orphan_sections = cp.orphan_sections
   raw_items = _parse_raw(cp, orphan_sections)
   items.extend(raw_items)
@@ -84,7 +89,8 @@ def _list_plot_item_labels(cp):
   return outlist  
 
 def _item_value(cp, key):
-  section, section_key = key.split(":",1)
+  # section names may contain colons ([Table-Form:NAME]), option keys cannot
+  section, section_key = key.rsplit(":",1)
   v = cp.raw_config_parser[section][section_key]
   return v 
 
